@@ -124,7 +124,11 @@ def make_real(cfg_idx):
     sq0 = SF.multiply(s0, s0)
     q = SF.multiply(s0, s1)
     sym = {"c0": s0, "c1": s1, "sq0": sq0, "d": SF.integrate(sq0), "q": q, "r": SF.multiply(s0, q)}
-    return {"ctx": {"A": PipelineContext(backend="torch", **ca), "B": PipelineContext(backend="torch", **cb), "D": _DEFAULT_CTX},
+    # a fresh "process-wide default" context per replay (the replay runs inside contextvars.copy_context(), so this set() is
+    # local to it): reusing the module's default object would accumulate the compiled circuits of every replayed history
+    dctx = PipelineContext.from_default_backend()
+    PL._PIPELINE_CONTEXT.set(dctx)
+    return {"ctx": {"A": PipelineContext(backend="torch", **ca), "B": PipelineContext(backend="torch", **cb), "D": dctx},
             "flags": {"A": ca, "B": cb, "D": {"semiring": "lse-sum", "fold": True, "optimize": True}},
             "sym": sym, "cc": {}, "roles": {**roles0, **roles1}}
 
